@@ -7,7 +7,18 @@ documents with at most one injected violation; additionally every rule run STAND
 (`default_validator(validators=[Rule])`, chain = TypeInfoVisitor + that rule), on which the per-rule
 theorems of Props/C06*.lean are stated.
 Inputs on which the model says "crash" (a Python exception ends validation: ledger V1, V2, ...) are
-counted and not compared.
+counted and not compared - their number, and every `model-does-not-cover:*` class, is written to the evidence under
+`outside_model` (zeros included).
+
+THE MEMOISED OVERLAP SEARCH (hunt2 C05/1, /repo 7e75356). The driver answers with `runMemo` (Validate/ChainMemo.lean):
+the chain of the theorems (UN-memoised search) and, next to it, the overlap rule with the memoised search
+(`overlapMemoRun`, recursion budget `fuelBound` - Props/C06_overlap_memo.lean: it never crashes). Where the
+un-memoised chain exhausts its fuel (fragment cycles below fields) the model's verdict is: other rules from the chain
+without the overlap rule, overlap rule from the memoised run - and it IS compared with the real validator (full chain
+and rule alone). On every answer where both searches ran: `memo:crosscheck` - same verdict of the rule, else
+correspondence failure `memo:verdict-differs:*` (stands in for the open half of the verdict-neutrality theorem;
+`overlap_memo_neutral_partial` proves the other half); `memo:memoised-search-crashes:*` and `doc-check-false:syn_rank`
+would contradict `overlap_memo_run_no_crash` / its hypothesis.
 
 THE TIE TO THE HEADLINE THEOREMS (Props/C06_head.lean: verdict_iff_all, attribution_all). They assume of the document
 `DocOk s d` = the three static checks `wfIdsB d`, `noMetaSubsB d`, `rankOkB s d (rankOf (computeRanks d))` + fragment
@@ -146,6 +157,64 @@ def model_outcome(ans):
 
 CHECKS = ("ids", "meta", "rank", "names", "schema_outputs")
 MUST_HOLD = ("ids", "names", "schema_outputs")
+OVERLAP = "OverlappingFieldsCanBeMergedChecker"
+
+
+def outside(ctx):
+    """how much lies OUTSIDE the model / the theorems, always written to the evidence (zeros included)"""
+    return ctx.extra.setdefault("outside_model", {
+        "answers": 0,
+        "model_says_crash_not_compared": 0,            # the model predicts an exception: verdict not compared
+        "model_says_crash_by_class": {},
+        "model_does_not_cover": {},                    # inputs not translated to the model at all, by reason
+        "unmemoised_chain_crashed": 0,                 # the chain of the THEOREMS (un-memoised overlap search) ran out of fuel
+        "unmemoised_search_not_run_unranked": 0,       # rankOkB false (fragment cycle / too deep): un-memoised search not run
+        "verdict_supplied_by_memoised_search": 0,      # ... and the verdict compared is the memoised search's
+        "memo_crosscheck_done": 0,                     # memoised verdict = un-memoised verdict (both ran)
+        "memo_crosscheck_counts_equal": 0,
+        "memo_crosscheck_differs": 0,
+        "memo_search_crashed": 0,                      # contradicts overlap_memo_terminates when syn_rank holds
+        "syn_rank_false": 0,
+    })
+
+
+def memo_crosscheck(ctx, ans, detail):
+    """the tie for the open verdict-neutrality theorem: on every answer where the overlap rule ran, the memoised search
+    (what /repo runs) and the un-memoised search (what the theorems are about) must give the same VERDICT whenever the
+    un-memoised one does not crash; the memoised one must never crash (overlap_memo_terminates)"""
+    o = outside(ctx)
+    m = ans.get("memo")
+    ck = ans.get("checks") or {}
+    if ck.get("syn_rank") is False:
+        o["syn_rank_false"] += 1
+        ctx.fail("doc-check-false:syn_rank", "a parsed document has no syntactic ranks: hypothesis of overlap_memo_terminates "
+                 "false, the translation to the model is wrong", dict(detail, checks=ck), kind="correspondence")
+    if not isinstance(m, dict):
+        return
+    if m.get("plain_crash") == "not-run:unranked":
+        o["unmemoised_search_not_run_unranked"] += 1
+    elif m.get("plain_crash") is not None:
+        o["unmemoised_chain_crashed"] += 1
+    if m.get("supplied"):
+        o["verdict_supplied_by_memoised_search"] += 1
+        ctx.stat("memo:verdict-supplied-by-memoised-search")
+    if m.get("memo_crash") is not None:
+        o["memo_search_crashed"] += 1
+        ctx.fail("memo:memoised-search-crashes:%s" % m["memo_crash"],
+                 "the memoised overlap search exhausts fuelBound (overlap_memo_terminates says it cannot)",
+                 dict(detail, memo=m), kind="correspondence")
+        return
+    if m.get("plain_overlap") is not None and m.get("memo_overlap") is not None:
+        ctx.count()
+        o["memo_crosscheck_done"] += 1
+        ctx.stat("memo:crosscheck")
+        if m["plain_overlap"] == m["memo_overlap"]:
+            o["memo_crosscheck_counts_equal"] += 1
+        if (m["plain_overlap"] > 0) != (m["memo_overlap"] > 0):
+            o["memo_crosscheck_differs"] += 1
+            ctx.fail("memo:verdict-differs:%s" % ("memo-silent" if m["plain_overlap"] else "memo-reports"),
+                     "memoised and un-memoised overlap search disagree on the verdict of the rule",
+                     dict(detail, memo=m), kind="correspondence")
 
 
 def doc_checks(ctx, ans, kind, detail):
@@ -177,6 +246,17 @@ def doc_checks(ctx, ans, kind, detail):
 
 
 def run(ctx, collect):
+    o = outside(ctx)
+    try:
+        _run(ctx, collect)
+    finally:
+        # every `model-does-not-cover:*` class counted anywhere in the check (parse options, experimental syntax, ...)
+        for k, v in ctx.stats.items():
+            if k.startswith("model-does-not-cover:"):
+                o["model_does_not_cover"][k.split(":", 1)[1]] = v
+
+
+def _run(ctx, collect):
     if not ctx.model_ok:
         ctx.notes.append("driver did not build: correspondence skipped, direct oracle only")
         return
@@ -229,7 +309,17 @@ def run(ctx, collect):
                     meta.append(("alone", text, None, label, feature, name))
         if not docs:
             continue
-        answers = ctx.driver.ask([{"op": "validate_many", "schema": world.dump(), "fixes": fixes, "docs": docs}])[0]
+        # in chunks: one request per <= 500 documents, so that no single request comes near the driver's time limit
+        # on a loaded machine (a thorough run asks for ~10^4 answers about one schema)
+        answers = []
+        schema_dump = world.dump()
+        import os
+        for i in range(0, len(docs), 500):
+            req = {"op": "validate_many", "schema": schema_dump, "fixes": fixes, "docs": docs[i:i + 500]}
+            if os.environ.get("C06_DUMP_REQ"):      # debugging aid: the request being asked, for bisecting a slow answer
+                with open(os.environ["C06_DUMP_REQ"], "w") as fh:
+                    json.dump({"req": req, "texts": [m[1] for m in meta[i:i + 500]], "sdl": world.sdl}, fh)
+            answers += ctx.driver.ask([req], timeout=int(os.environ.get("C06_ASK_TIMEOUT", "600")))[0]
         alone_real = {}
         for (kind, text, real, label, feature, rule), ans in zip(meta, answers):
             ctx.count()
@@ -239,8 +329,14 @@ def run(ctx, collect):
                 real = real_chain(world.schema, text, rules=[by_cls[rule]])
                 alone_real.setdefault(text, {})[rule] = real["outcome"]
             ro = real["outcome"]
+            outside(ctx)["answers"] += 1
+            memo_crosscheck(ctx, ans, {"part": "model", "sdl": world.sdl, "text": text, "label": label, "feature": feature,
+                                       "rule_alone": rule, "fixes": fixes})
             if mo.startswith("raise"):
                 ctx.stat("model-crash:%s (real: %s)" % (mo, ro.split(":")[0]))
+                o = outside(ctx)
+                o["model_says_crash_not_compared"] += 1
+                o["model_says_crash_by_class"][mo] = o["model_says_crash_by_class"].get(mo, 0) + 1
                 continue
             detail = {"part": "model", "sdl": world.sdl, "text": text, "label": label, "feature": feature, "rule_alone": rule,
                       "real": ro, "real_rules": reporting(real), "model": mo, "model_rules": mrules, "fixes": fixes}
